@@ -129,6 +129,11 @@ impl StreamBiRemoteWT {
 struct Datagram { sid: SessionId, payload: Vec<u8> }
 impl Datagram {
     fn session_id(&self) -> (r: SessionId) ensures r == self.sid { self.sid }
+    #[verifier::external_body]
+    fn write(session_id: SessionId, payload: &[u8]) -> (r: Datagram)
+        ensures r.sid == session_id, r.payload@ == dgram_wire(session_id, payload@),
+    { unimplemented!() }
+    fn into_quic_bytes(self) -> (r: QBytes) ensures r.b@ == self.payload@ { QBytes { b: self.payload } }
 }
 
 // a peer-opened unidirectional HTTP/3 stream after its type has been read
@@ -225,8 +230,28 @@ struct SharedResultGet<T> { t: Option<T> }
 #[verifier::external_body]
 #[verifier::reject_recursive_types(T)]
 struct SharedResultSet<T> { t: Option<T> }
+// quinn::Connection::send_datagram answers by an unknown function of the bytes it is given
+#[verifier::external_body]
+struct QConnectionError { x: u8 }
+enum QSendDatagramError { UnsupportedByPeer, Disabled, TooLarge, ConnectionLost(QConnectionError) }
+uninterp spec fn send_outcome(wire: Seq<u8>) -> Result<(), QSendDatagramError>;
+struct QBytes { b: Vec<u8> }
 #[verifier::external_body]
 struct QuicConnection { x: u8 }
+impl QuicConnection {
+    // assumed: datagrams are never disabled locally on an endpoint this crate configures
+    #[verifier::external_body]
+    fn send_datagram(&self, data: QBytes) -> (r: Result<(), QSendDatagramError>)
+        ensures r == send_outcome(data.b@), !(r matches Err(QSendDatagramError::Disabled)),
+    { unimplemented!() }
+}
+// what datagram.rs `Datagram::write(session, payload).into_quic_bytes()` puts on the wire (unit
+// `datagram`: varint(session / 4) || payload)
+uninterp spec fn dgram_wire(session: SessionId, payload: Seq<u8>) -> Seq<u8>;
+
+//@ extract wtransport/src/error.rs >> enum SendDatagramError
+//@ noderive
+//@ end
 
 //@ extract wtransport/src/driver/mod.rs >> enum DriverError
 //@ noderive
@@ -270,6 +295,20 @@ impl Driver {
 //@ | r matches Ok(s) ==> s.sid.v == session_id.v && (exists|n: nat| feed_bi(n) == Some(s)),
 //@ | r matches Err(e) ==> e == self.result_spec() && (exists|n: nat| feed_bi(n) is None),
 //@ loop 1 invariant true
+//@ end
+
+// C03 (send side): the bytes handed to QUIC are the datagram's wire image for THIS session, and the
+// verdict is quinn's: TooLarge iff quinn says too large, never refused otherwise for its size
+//@ extract wtransport/src/driver/mod.rs >> impl Driver >> fn send_datagram
+//@ rename `quinn::SendDatagramError` => `QSendDatagramError`
+//@ ensures
+//@ | match send_outcome(dgram_wire(session_id, payload@)) {
+//@ |     Ok(()) => r is Ok,
+//@ |     Err(QSendDatagramError::TooLarge) => r == Err::<(), SendDatagramError>(SendDatagramError::TooLarge),
+//@ |     Err(QSendDatagramError::UnsupportedByPeer) => r == Err::<(), SendDatagramError>(SendDatagramError::UnsupportedByPeer),
+//@ |     Err(QSendDatagramError::ConnectionLost(_)) => r == Err::<(), SendDatagramError>(SendDatagramError::NotConnected),
+//@ |     Err(QSendDatagramError::Disabled) => true,
+//@ | }
 //@ end
 
 // C17 / C03: only datagrams of this session are delivered, exactly as queued; others are dropped
